@@ -268,6 +268,11 @@ func (k Keeper) UpdateTokenPairERC20(ctx sdk.Context, erc20Addr, newERC20Addr co
 		return types.TokenPair{}, sdkerrors.Wrapf(types.ErrTokenPairNotFound, "token '%s' not registered", erc20Addr)
 	}
 
+	// a contract belongs to one pair only
+	if newERC20Addr != erc20Addr && k.IsERC20Registered(ctx, newERC20Addr) {
+		return types.TokenPair{}, sdkerrors.Wrapf(types.ErrTokenPairAlreadyExists, "token ERC20 contract already registered: %s", newERC20Addr.String())
+	}
+
 	// Get current stored metadata
 	metadata, found := k.bankKeeper.GetDenomMetaData(ctx, pair.Denoms[0])
 	if !found {
